@@ -150,6 +150,24 @@ pub trait ReferenceProcessor<Params, MapResult, ReduceResult>
         entries: &[parser::LogRefEntry],
     ) -> Option<MapResult>;
 
+    /// Called for each file just before `map()`. A processor may use this to prepare for the
+    /// map operation; if it returns a result, `map()` is not called for the file and that
+    /// result is used instead. By default, does nothing.
+    ///
+    /// # Arguments
+    ///
+    /// * `context` - The context in use.
+    /// * `params` - Any parameters to pass to the processor.
+    /// * `entries` - The log reference entries found in the file.
+    fn before_map(
+        _context: &Context,
+        _params: &Option<Params>,
+        _entries: &[parser::LogRefEntry],
+    ) -> Option<MapResult>
+    {
+        None
+    }
+
     /// Reduce the results of the map operation.
     ///
     /// # Arguments
@@ -570,6 +588,41 @@ impl ReferenceProcessor<Arc<AtomicU32>, InsertReferencesResult, InsertReferences
         }
     }
 
+    /// Before a file is modified, make sure the lock file already covers every reference ID the
+    /// file is about to receive. This way the lock file is never behind the IDs present in the
+    /// code, however the run ends (failure of a later file, a stop request, or being killed).
+    fn before_map(
+        context: &Context,
+        params: &Option<Arc<AtomicU32>>,
+        entries: &[parser::LogRefEntry],
+    ) -> Option<InsertReferencesResult>
+    {
+        let num_missing = entries
+            .iter()
+            .filter(|&e| !e.exists() && e.usable_reference_position())
+            .count();
+
+        let next_reference_id = match params
+        {
+            Some(next_id) if num_missing > 0 => next_id.load(std::sync::atomic::Ordering::Relaxed),
+            _ => return None,
+        };
+
+        let reserved_next_reference_id = next_reference_id.saturating_add(num_missing as u32);
+
+        match context.try_cache_next_reference_id(
+            reserved_next_reference_id,
+            context.config.config_dir.as_str(),
+        )
+        {
+            Ok(_) => None,
+            Err(_) => Some(InsertReferencesResult {
+                failure: true,
+                num_inserted_references: 0,
+            }),
+        }
+    }
+
     fn reduce(map_results: &[InsertReferencesResult]) -> Option<InsertReferencesResult>
     {
         let mut insert_count: usize = 0;
@@ -640,6 +693,11 @@ where
                 );
 
                 if let Some(map_result) =
+                    ProcessorType::before_map(context, &params_task_inner, &references)
+                {
+                    all_map_results.push(map_result);
+                }
+                else if let Some(map_result) =
                     ProcessorType::map(&path, &file_contents, &params_task_inner, &references).await
                 {
                     all_map_results.push(map_result);
@@ -763,15 +821,22 @@ pub fn generate_code(context: &Context) -> Result<u32, &'static str>
             Arc<AtomicU32>,
             InsertReferencesResult,
             InsertReferencesResult,
-        >(context, Some(next_reference_id), &finder)
+        >(context, Some(Arc::clone(&next_reference_id)), &finder)
         {
             Some(r) => r,
             None => return Err("Failed to insert references"),
         };
 
-        let cachable_reference_id = calculated_next_reference_id
-            .saturating_add(reference_updates.num_inserted_references as u32);
-        context.cache_next_reference_id(cachable_reference_id, context.config.config_dir.as_str());
+        /* Every ID below the counter's value may have been written to the code (even by a file
+         * which failed part-way through), so that is the value to cache.
+         */
+        let cachable_reference_id = next_reference_id.load(std::sync::atomic::Ordering::Relaxed);
+        if context
+            .try_cache_next_reference_id(cachable_reference_id, context.config.config_dir.as_str())
+            .is_err()
+        {
+            return Err("Failed to write the lock file");
+        }
 
         info!(
             "[ref: 21] Num. inserted reference(s): {}",
